@@ -212,6 +212,10 @@ func evalC16(c *Ctx, cs *Case) {
 			c.Violation(cs, "cli.exit0-on-failure", "", det)
 		case !wantOK && len(bytes.TrimSpace(res.stderr)) == 0:
 			c.Violation(cs, "cli.no-diagnostic", "", det)
+		case !wantOK && compareOut && blocks == nil && wantOut != nil && !bytes.Equal(res.stdout, wantOut):
+			// also on failure stdout is exactly what the library wrote before it failed
+			det["want"] = trunc(string(wantOut), 800)
+			c.Violation(cs, "cli.stdout-differs-from-library", "on-failure", det)
 		case wantOK && compareOut:
 			ok := bytes.Equal(res.stdout, wantOut)
 			if blocks != nil {
@@ -266,7 +270,11 @@ func evalC16(c *Ctx, cs *Case) {
 					}
 				}
 				res := runCLI(c, j.Target, stdin, "", args...)
-				judge(strings.Join(args, " "), res, lib.Err == nil && lib.Panic == nil, lib.Out, compare, blocks, map[string]any{"lib_err": errStr(lib.Err)})
+				libOut := lib.Out
+				if libOut == nil {
+					libOut = []byte{}
+				}
+				judge(strings.Join(args, " "), res, lib.Err == nil && lib.Panic == nil, libOut, compare, blocks, map[string]any{"lib_err": errStr(lib.Err)})
 			}
 		}
 	}
